@@ -245,7 +245,7 @@ func c01(c *core.Ctx) {
 		c01One(k, m, k.Index%36, k.R.Intn(4))
 	})
 	c.Family("sessions", c.N(36*30, 36*20000), c01Session)
-	c.Require("sessions")
+	c.Require("sessions", "msg_object_completed-after-plain-encode", "msg_object_header-parsed-from-a-protected-datagram", "msg_object_object-decoded-from-another-datagram", "msg_object_NewMessage")
 	c.Family("nokey", c.N(8000, 2000000), func(k *core.Case) {
 		m := gen.Msg(k.R, gen.Opt{AllowBig: k.Index%9 == 0, AllowEmpty: true})
 		if k.Index%4 == 1 && len(m.Payloads) > 0 {
@@ -462,7 +462,7 @@ func c06(c *core.Ctx) {
 		k.Count("at_limit_protected_ok", 1)
 		k.Distinct(fmt.Sprintf("limit|ok|%s|%d", s.Name(), inner/16))
 	})
-	c.Require("at_limit_refused_with_error", "at_limit_protected_ok")
+	c.Require("at_limit_refused_with_error", "at_limit_protected_ok", "msg_object_completed-after-plain-encode", "msg_object_header-parsed-from-a-protected-datagram", "msg_object_object-decoded-from-another-datagram", "msg_object_NewMessage")
 }
 
 var _ = message.TypeSK
